@@ -5,6 +5,7 @@ import (
 	"errors"
 	"fmt"
 	"io"
+	"math"
 	"net"
 	"strconv"
 	"strings"
@@ -112,6 +113,10 @@ func toBytes(f net.Addr, fwdType int) []byte {
 		return nil
 	}
 
+	if len(addrStr) > math.MaxUint16 {
+		logrus.Error("PF: address does not fit the two-byte length prefix")
+		return nil
+	}
 	addrLen := make([]byte, 2)
 	binary.BigEndian.PutUint16(addrLen, uint16(len(addrStr)))
 
@@ -339,6 +344,9 @@ func StartPFClient(forward *Forward, muxer *tubes.Muxer, pfType int) {
 	}
 
 	byteAddr := toBytes(addr, pfType)
+	if byteAddr == nil {
+		return
+	}
 	_, err = pfControlTube.Write(byteAddr)
 	if err != nil {
 		logrus.Errorf("PF: Can't write in the PF control tube. %v", err)
